@@ -132,6 +132,12 @@ func lateReason(c *l3Case) string {
 func judgeBudget(entry string, sp *sysPipe, r qres, edns bool) (verdict string, over bool) {
 	caps := sp.Cfg
 	mode := sp.Policy.Mode
+	if r.Snap != nil && r.TrustQs > int(r.Snap.InternalQueries) {
+		// every question asked on behalf of a sub-query (nameserver address, chain of trust, alias
+		// target) presupposes a sub-query the tree's ledger admitted
+		return fmt.Sprintf("FAIL sig=%s/sub-query-traffic-without-internal-debit distinct-sub-questions=%d internal-debits=%d",
+			entry, r.TrustQs, r.Snap.InternalQueries), false
+	}
 	if r.Snap != nil {
 		// every datagram / TCP query seen upstream must have been debited first
 		if r.packets() > int64(r.Snap.OutboundQueries) {
@@ -153,7 +159,7 @@ func judgeBudget(entry string, sp *sysPipe, r qres, edns bool) (verdict string, 
 		// chain-of-trust sub-lookups are internal queries: every distinct DS / DNSKEY question that
 		// reached an upstream was one admitted sub-query
 		if r.TrustQs > int(caps[1]) {
-			return fmt.Sprintf("FAIL sig=%s/trust-sub-lookups-past-internal-budget distinct-ds-dnskey-questions=%d budget=%d",
+			return fmt.Sprintf("FAIL sig=%s/sub-queries-past-internal-budget distinct-sub-questions=%d budget=%d",
 				entry, r.TrustQs, caps[1]), false
 		}
 		// a tree whose latched rejection is not the outbound one (no straggler can latch those after
@@ -273,6 +279,52 @@ func clip(s string) string {
 		return s[:160] + "…"
 	}
 	return s
+}
+
+// l3 warm: the topology's query under a harness-owned ledger with generous caps (history building:
+// the reply is judged for termination only). l3 advance <seconds>: virtual clock. l3 heal: repair the world.
+func l3Misc(f []string) vlib.Res {
+	c := curL3
+	if c == nil {
+		return vlib.Res{Impl: "no-case", Oracle: "-"}
+	}
+	pipes := []*sysPipe{c.main}
+	topos := []*topo{c.topo}
+	if c.ref != nil {
+		pipes, topos = append(pipes, c.ref), append(topos, c.refTopo)
+	}
+	switch f[1] {
+	case "warm":
+		var out string
+		for i, sp := range pipes {
+			gen := sp.Policy
+			gen.MaxOutboundQueries, gen.MaxInternalQueries, gen.MaxSignatureChecks, gen.MaxDSDigests = 100000, 100000, 100000, 100000
+			r := sp.queryWith(topos[i].QName, topos[i].QType, true, false, "10.8.8.8:8888", true, &gen)
+			if v := judgeReply("l3/warm", sp, r, true); v != "" {
+				return vlib.Res{Impl: replyBrief(r), Oracle: v, Tags: "nt," + c.fam}
+			}
+			if i == 0 {
+				out = replyBrief(r)
+			}
+		}
+		return vlib.Res{Impl: out, Oracle: "ok", Tags: "nt," + c.fam}
+	case "advance":
+		d := time.Duration(vlib.Atoi(f[2])) * time.Second
+		for _, sp := range pipes {
+			if sp.P.Cache != nil {
+				sp.P.Advance(d)
+			}
+		}
+		return vlib.Res{Impl: "ok", Oracle: "ok"}
+	case "heal":
+		for _, t := range topos {
+			if t.Heal != nil {
+				t.Heal()
+			}
+		}
+		return vlib.Res{Impl: "ok", Oracle: "ok"}
+	}
+	return vlib.Res{Impl: "bad-op"}
 }
 
 // l3 again <client#>: the identical query from another client.
